@@ -368,7 +368,8 @@ def combine1fiber(inloglam, objflux, newloglam, objivar=None, verbose=False,
         amethod = kwargs['aesthetics']
     else:
         amethod = 'traditional'
-    newflux = aesthetics(newflux, newivar, method=amethod)
+    if goodpts.any():
+        newflux = aesthetics(newflux, newivar, method=amethod)
     # if 'interpolate' in kwargs:
     #     newflux = pydlutils.image.djs_maskinterp(newflux,~goodpts,const=True)
     # else:
